@@ -549,9 +549,13 @@ func (c *HostClient) doNonNilReqResp(req *protocol.Request, resp *protocol.Respo
 	if (reqTimeout > 0 && reqTimeout < dialTimeout) || dialTimeout == 0 {
 		dialTimeout = reqTimeout
 	}
-	cc, inPool, err := c.acquireConn(dialTimeout)
+	cc, inPool, err := c.acquireConn(dialTimeout, reqTimeout, begin)
 	// if getting connection error, fast fail
 	if err != nil {
+		if reqTimeout > 0 && errors.Is(err, errs.ErrNoFreeConns) && time.Since(begin) >= reqTimeout {
+			// the request deadline, not MaxConnWaitTimeout, ended the wait
+			err = errTimeout
+		}
 		return false, err
 	}
 	conn := cc.c
@@ -802,7 +806,7 @@ func (c *HostClient) SetMaxConns(newMaxConns int) {
 	c.connsLock.Unlock()
 }
 
-func (c *HostClient) acquireConn(dialTimeout time.Duration) (cc *clientConn, inPool bool, err error) {
+func (c *HostClient) acquireConn(dialTimeout, reqTimeout time.Duration, begin time.Time) (cc *clientConn, inPool bool, err error) {
 	createConn := false
 	startCleaner := false
 
@@ -839,6 +843,12 @@ func (c *HostClient) acquireConn(dialTimeout time.Duration) (cc *clientConn, inP
 		}
 
 		timeout := c.MaxConnWaitTimeout
+		// never wait for a free connection longer than the request may take as a whole
+		if reqTimeout > 0 {
+			if left := reqTimeout - time.Since(begin); left < timeout {
+				timeout = left
+			}
+		}
 
 		// wait for a free connection
 		tc := timer.AcquireTimer(timeout)
